@@ -55,6 +55,26 @@ def run(ctx):
         if out != 'stop' or pos != [len(e[1]) * (i + 1) for i in range(n)]:
             ctx.prop_fail('stream of %d encodings: objects/positions %r, outcome %r' % (n, pos, out),
                           {'codec': cdc, 'T': c.T, 'v': c.v, 'encoding': e[1].hex(), 'n': n})
+    # long back-to-back streams from a non-seekable source (beyond the caching wrapper's buffer)
+    import io
+    from pyasn1.type import univ
+    from pyasn1.codec.ber import encoder as benc
+    for trial in range(2):
+        one = benc.encode(univ.OctetString(bytes([trial + 1]) * ctx.rng.randint(70, 130)))
+        n = (io.DEFAULT_BUFFER_SIZE * ctx.rng.choice([1, 2, 3])) // len(one) + ctx.rng.randint(2, 30)
+        data = one * n
+        for seekable in (True, False):
+            s = streams.Growing(seekable=seekable); s.arrive(data); s.close_input()
+            ev, out = streams.drive(I.DEC['BER'], s, [])
+            objs = [x for x in ev if not isinstance(x, str)]
+            ctx.case(('long-stream', len(one), n, seekable), True)
+            ok = out == 'stop' and len(objs) == n and all(bytes(o[1]) == bytes(one[2:] if len(one) < 130 else one[3:]) for o in objs)
+            if seekable:
+                ok = ok and [o[2] for o in objs] == [len(one) * (i + 1) for i in range(n)]
+            if not ok:
+                ctx.prop_fail('stream of %d back-to-back encodings (%d octets) from a %s source: %d objects, outcome %r' % (
+                    n, len(data), 'seekable' if seekable else 'non-seekable', len(objs), out),
+                    {'encoding': one.hex(), 'n': n, 'seekable': seekable})
     if meta: ctx.sample(meta[0]); ctx.sample(meta[-1])
     if not search_only:
         codes = core.coq_codes('c07', 'Model.Dec Model.Obs', exprs)
